@@ -34,7 +34,8 @@ ASSUMPTIONS = ["completeness not asserted (a safe override being refused is allo
                "not asserted: date/time types; constraints carried in Annotated[..., Field(...)]; phantom subclasses whose "
                "pattern does not narrow the parent's"]
 REQUIRED_CLASSES = {"all": ["accepted_narrowing", "refused_with_witness", "override_declared", "middle_unregistered",
-                            "mandatory_then_optional", "extra_forbid_parent", "installed_ancestor_parse"]}
+                            "mandatory_then_optional", "extra_forbid_parent", "installed_ancestor_parse",
+                            "refusal_sticky_register", "refusal_sticky_ep"]}
 BUDGET_S = {"quick": 900, "thorough": 3 * 3600}
 NSHARD = 12
 
@@ -213,6 +214,58 @@ def check_pair(pname, ptype, cname, ctype, shape, rec=None):
                  sample=dict(case, outcome="accepted", corpus_values_accepted_by_leaf=accepted_vals) if nt and accepted_vals else None)
 
 
+def check_sticky(pname, ptype, cname, ctype, how, rec):
+    """A plugin the group refused stays refused: later lookups neither hand it out nor (manual registration) list it.
+
+    how = "register": manual registration into the real schema plugin group;
+    how = "ep": a schema plugin group object built over an entry point (what loading an installed package does)."""
+    from importlib.metadata import EntryPoint
+
+    from metador_core.plugin import types as ptypes
+    from metador_core.plugin.util import register_in_group
+    from metador_core.plugins import schemas
+
+    case = dict(kind="sticky", parent=pname, child=cname, how=how)
+    try:
+        p = mk(MetadataSchema, ptype, plugin=True)
+        c = mk(p, ctype, plugin=True)
+        register_in_group(schemas, p, violently=True)
+    except (TypeError, ValueError):
+        return  # the pair cannot even be declared / the parent alone is refused: nothing to look up
+    name, ver = c.Plugin.name, tuple(c.Plugin.version)
+    if how == "register":
+        g = schemas
+        try:
+            register_in_group(g, c, violently=True)
+            refused = False
+        except (TypeError, ValueError):
+            refused = True
+    else:
+        epn = ptypes.to_ep_name(name, ver)
+        g = type(schemas)({epn: EntryPoint(epn, f"vt_generated:{c.__name__}", ptypes.to_ep_group_name("schema"))})
+        try:
+            g.get(name, ver)
+            refused = False
+        except (TypeError, ValueError):
+            refused = True
+    if not refused:
+        rec.case(nt_key=None, classes=["sticky_accepted_" + how])
+        return
+    for attempt in (2, 3):
+        try:
+            got = g.get(name, ver)
+        except Exception:  # noqa: BLE001
+            got = None
+        if got is not None:
+            raise Violation(f"C13:refused-plugin-handed-out:{how}",
+                            f"{case}: the group refused {name} {ver} with a TypeError, but lookup no. {attempt} returns the class "
+                            f"{got.__name__} without complaint", "refused again (or absent)")
+    if how == "register" and any(r.name == name for r in g.keys()):
+        raise Violation("C13:refused-plugin-listed", f"{case}: {name} is listed by the group after its registration was refused", "not listed")
+    rec.case(nt_key=[pname, cname, how, "sticky"], classes=["refusal_sticky", "refusal_sticky_" + how],
+             sample=dict(case, outcome="refused at first load and at every later lookup"))
+
+
 def _find_witness_by_types(ptype, ctype, shape):
     """For a refused pair: is there a corpus value the child type accepts and the parent type rejects?"""
     try:
@@ -288,7 +341,8 @@ def check_installed(name, version, recipe, rec=None):
 
 def plan(tier, seed):
     sh = [dict(name=f"pairs-{i}", kind="pairs", i=i) for i in range(NSHARD)]
-    sh += [dict(name="extra-rule", kind="extra")]
+    sh += [dict(name="extra-rule", kind="extra"), dict(name="sticky-register", kind="sticky", how="register"),
+           dict(name="sticky-ep", kind="sticky", how="ep")]
     inst = G.installed_schemas()
     sh += [dict(name=f"installed-{n}", kind="installed", schema=n, version=list(v)) for n, v, _ in inst]
     if tier == "thorough":
@@ -318,6 +372,19 @@ def run_shard(shard, tier, seed, rec):
         rec.notes.append(f"pool of {len(names)} field types, {len(CORPUS)} corpus values, {len(SHAPES)} chain shapes")
     elif k == "extra":
         check_extra_rule(rec)
+    elif k == "sticky":
+        P = pool()
+        names = sorted(P)
+        step = 23 if tier == "quick" else 5  # a fixed sample of the pool's pairs (each leaves two plugins in the group)
+        pairs = [(a, b) for a in names for b in names if a != b]
+        seen = set()
+        for pn, cn in pairs[seed % step::step]:
+            try:
+                check_sticky(pn, P[pn], cn, P[cn], shard["how"], rec)
+            except Violation as v:
+                if v.signature not in seen:
+                    seen.add(v.signature)
+                    rec.fail(v.signature, dict(kind="sticky", parent=pn, child=cn, how=shard["how"]), v.observed, v.expected)
     elif k == "installed":
         from metador_core.plugins import schemas
 
@@ -368,5 +435,8 @@ def replay(rp, rec):
             check_installed(case["schema"], case["version"], case["recipe"], rec)
         elif case.get("kind") == "extra":
             check_extra_rule(rec)
+        elif case.get("kind") == "sticky":
+            P = pool()
+            check_sticky(case["parent"], P[case["parent"]], case["child"], P[case["child"]], case["how"], rec)
     except Violation as v:
         rec.fail(v.signature, case, v.observed, v.expected)
